@@ -163,6 +163,8 @@ package sourcewrap
 //@   requires api_precondition_not_its_own_source: s != nil ==> pay(s) != b
 //@   modifies sourcewrap.Blank.inner@b, rec_sourceValue, rec_waBlockingReport, rec_watch,
 //@            sourcewrap.Blank.t@pay(s), sourcewrap.Blank.wa@pay(s), sourcewrap.Blank.watchCtx@pay(s)
+//@   at call b.wa.BlockingReportNewValue(:
+//@     assert C07_C08_the_report_is_bounded_by_the_callers_context: arg1 == ctx
 //@   ensures C20_nil_source_refused: s == nil ==> err != nil && b.inner == old(b.inner)
 //@        && rec_sourceValue_cnt == old(rec_sourceValue_cnt) && rec_waBlockingReport_cnt == old(rec_waBlockingReport_cnt)
 //@   ensures C20_watcher_is_never_replaced: isWatcher(old(b.inner)) ==> err != nil && b.inner == old(b.inner)
